@@ -25,6 +25,8 @@ EXPLANATION = (
     'next - this. C06.R7 (fan-in): MetricCollector::Produce hands ForEachMeter a callback that returns true on every exit, ForEachMeter '
     'calls it for every meter (the loop is left only when the callback says stop), Meter::Collect collects every registered storage.')
 EXPLANATION += " C06.R3 also requires that the map stored as the reader's reported state is, on every path, the one the reader's unreported list was merged into (never re-assigned); C06.R4 that every report on the stash path is preceded by storing the current collection time for the reader."
+ROUND2_EXPLANATION = (' C06.R8: MetricCollector::GetAggregationTemporality asks the reader with the instrument-type parameter on every path and writes no member. C06.R9: every callback of buildMetrics that stores into the merged map looks the attribute set up first and overwrites only with a value built from the found aggregation. Shared C08.R1: series-key equality compares contents.')
+EXPLANATION += ROUND2_EXPLANATION
 NOT_DECIDED = 'exact conservation of sums over arbitrary histories and races (arithmetic), cumulative totals over time.'
 
 
